@@ -125,7 +125,7 @@ def generate(rng, index, tier):
     per = kernel.expand_threads(threads, ids)
     scn = {'threads': threads, 'schedule': kernel.draw_schedule(rng, per, rng.pick(kernel.SHAPES)), 'focus': name,
            'double_seed': rng.randrange(1 << 30), 'colour': index % 7 == 0,
-           't0': (rng.randrange(1, 1 << 30) << 8) | 0x11}
+           't0': (rng.randrange(1, 1 << 30) << 8) | 0x11, 'tsmode': worlds.draw_tsmode(rng, p=0.2)}
     return scn
 
 
